@@ -67,6 +67,8 @@ CheckA == IF Ev.k # k THEN "AnnealOrder"
           ELSE IF ~SpinsOK(Ev.st) THEN "InitialSpins"
           ELSE IF Len(Tr.init) > 0 /\ Ev.st # Tr.init THEN "InitialStateUsed"
           ELSE IF k = 0 /\ ~MarshalOKr(tid) THEN "MarshalOK"
+          \* an explicit schedule is the schedule the kernel runs: as many sweeps, hot or frozen as given
+          ELSE IF k = 0 /\ Tr.has_sched /\ Tr.sched_user # Tr.tpos THEN "ScheduleUsed"
           ELSE ""
 CheckS == LET i == Ev.i
               must == Ev.dE < 0 \/ (Ev.dE > 0 /\ Ev.tpos /\ Ev.below) \/ (Ev.dE = 0 /\ Ev.tpos)
@@ -103,7 +105,7 @@ Spec == Init /\ [][Next]_vars
 
 Report == bad = "" \/ (PrintT(<<"QVVIOL", bad, tid, l - 1>>) /\ FALSE)
 \* one invariant per clause so that TLC names what failed
-MarshalOK == bad # "MarshalOK"
+MarshalOK == bad \notin {"MarshalOK", "ScheduleUsed"}
 InitialStateUsed == bad \notin {"InitialStateUsed", "InitialSpins"}
 VisitOrder == bad \notin {"Position", "IndexRange", "InOrder", "SweepCount", "Temperature", "AnnealOrder"}
 DeltaExact == bad # "DeltaExact"
